@@ -426,6 +426,11 @@ func (w *World) publish(arg string) bool {
 			for j := range val {
 				val[j] = byte(int(off)*31 + j*7 + 1)
 			}
+		case f[2] == "M":
+			// exactly the largest body the format accepts (key + value = 64 MiB): whether the batch is taken or
+			// refused, it must be taken or refused as a whole
+			val = hugeValue()[:64<<20-len(key)]
+			huge = true
 		case f[2] == "H":
 			// one byte above the 64 MiB body limit: the whole batch is expected to be rejected
 			val = hugeValue()
